@@ -3,8 +3,9 @@
    ingest_mutants.py Cxx   -> checks /tmp/mut-Cxx/patch_{a,b,c}.diff + demo_{a,b,c}.py in a scratch worktree"""
 import json, os, shutil, subprocess, sys, tempfile
 prop = sys.argv[1]
-src = "/tmp/mut-" + prop
-for x in "abc":
+src = sys.argv[2] if len(sys.argv) > 2 else "/tmp/mut-" + prop
+letters = sys.argv[3] if len(sys.argv) > 3 else "abc"
+for x in letters:
     patch, demo = f"{src}/patch_{x}.diff", f"{src}/demo_{x}.py"
     if not (os.path.exists(patch) and os.path.exists(demo)) or os.path.getsize(patch) == 0:
         continue
